@@ -92,7 +92,35 @@ def float_out(y):
     return None
 
 
+SCIPY_MODE = [False]       # set by main() for shards with {"scipy": true}: sweep autograd.scipy instead (needs the tooling interpreter)
+SCIPY_DENY = {"get_blas_funcs", "get_lapack_funcs", "find_best_blas_type", "LinAlgError", "LinAlgWarning", "test", "odeint", "rvs"}
+
+
+def scipy_namespaces():
+    """the SciPy-compatible namespaces autograd exports: every callable of autograd.scipy.special / .linalg / .signal / .stats.<dist> that
+    SciPy has under the same name (autograd.scipy.linalg wraps ALL of scipy.linalg, mostly without rules: those must raise)"""
+    import importlib
+    import scipy.special, scipy.linalg, scipy.signal, scipy.stats      # noqa
+    out = []
+    mods = [("special", "autograd.scipy.special", scipy.special), ("scipy.linalg", "autograd.scipy.linalg", scipy.linalg),
+            ("signal", "autograd.scipy.signal", scipy.signal)]
+    for dist in ("norm", "t", "gamma", "beta", "chi2", "poisson", "dirichlet", "multivariate_normal"):
+        mods.append(("stats." + dist, "autograd.scipy.stats." + dist, getattr(scipy.stats, dist)))
+    for ns, modname, ref in mods:
+        mod = importlib.import_module(modname)
+        for name in sorted(vars(mod)):
+            obj = getattr(mod, name)
+            if name.startswith("_") or not callable(obj) or inspect.isclass(obj) or inspect.ismodule(obj) or name in SCIPY_DENY:
+                continue
+            if not hasattr(ref, name) or not (getattr(obj, "_is_autograd_primitive", False) or getattr(obj, "__module__", "") == modname):
+                continue          # a helper, or a name merely imported into the module (np, defvjp, ...)
+            out.append((ns, name, obj, False))
+    return out
+
+
 def namespaces():
+    if SCIPY_MODE[0]:
+        return scipy_namespaces()
     out = []
     for ns, mod in (("numpy", np), ("linalg", npla), ("fft", npfft), ("random", nprand)):
         for name in sorted(vars(mod)):
@@ -226,10 +254,18 @@ def sweep(shard, nshards):
                 positions = [p for p in positions if p in ONLY[tname]]
             if not positions:
                 continue
+            if ns == "scipy.linalg" and tname in ("scalar", "scalars"):
+                continue          # matrix functions of a Python scalar (scipy 1.17 returns exp(x) for sqrtm(x) of a scalar)
+            if ns.startswith("stats.multivariate_normal"):
+                continue          # functions of a SYMMETRIC matrix argument: covered by the scipy family of C01 with symmetrised inputs
             # plain NumPy must accept the template
             try:
                 f0 = call_of(entry, args, kwargs, positions[0])
-                y0 = f0(fresh(args)[positions[0]])
+                with warnings.catch_warnings(record=True) as wl0:
+                    warnings.simplefilter("always")
+                    y0 = f0(fresh(args)[positions[0]])
+                if any("truncated to an integer" in str(w.message) for w in wl0):
+                    continue      # an integer-only parameter (order of yn, ...) given a float: SciPy truncates it, not a meaningful request
             except Exception:
                 continue
             if float_out(y0) is None:
@@ -482,12 +518,13 @@ def main():
             for r in nondiff_rows():
                 f.write(json.dumps(r) + "\n")
         return
+    SCIPY_MODE[0] = bool(sh.get("scipy"))
     rows = sweep(sh["shard"], sh["nshards"])
-    if sh["shard"] == 0:
+    if sh["shard"] == 0 and not SCIPY_MODE[0]:
         rows += guards()
     with open(sys.argv[2], "w") as f:
         for r in rows:
-            r["id"] = r["id"] + 1000000 * sh["shard"] if not r["guard"] else r["id"]
+            r["id"] = r["id"] + 1000000 * (sh["shard"] + (100 if SCIPY_MODE[0] else 0)) if not r["guard"] else r["id"]
             f.write(json.dumps(r) + "\n")
 
 
